@@ -30,9 +30,9 @@ ALL_FIELDS = ["D", "F", "R", "P", "T", "E", "roots", "wroots", "vals", "raws", "
 # per-property configuration: which streams exercise it, which observation channels its statement
 # talks about (projection principle, DESIGN 5.3), which oracle families judge it
 PROPS = {
-    "C01": dict(streams=["corpus", "contract", "exh2", "exh3s"], fields=["D", "E", "roots"], oracles=["O1"],
+    "C01": dict(streams=["corpus", "contract", "exh2", "exh3s", "api"], fields=["D", "E", "roots"], oracles=["O1"],
                 contract=True, title="no premature destruction"),
-    "C02": dict(streams=["corpus", "contract", "weakheavy", "exh2", "script"], fields=["D", "F", "E"], oracles=["O2"],
+    "C02": dict(streams=["corpus", "contract", "weakheavy", "exh2", "script", "api"], fields=["D", "F", "E"], oracles=["O2"],
                 contract=True, title="values die at most once; no access after release"),
     "C03": dict(streams=["corpus", "contract", "exh2", "exh3s"], fields=["D"], oracles=["O3"], contract=True,
                 title="orphaned group destroyed in full, synchronously"),
@@ -44,7 +44,7 @@ PROPS = {
                 oracles=["O6"], contract=False, title="counts and identity exact"),
     "C07": dict(streams=["noadopt"], fields=["D", "R", "roots", "wroots", "vals", "raws", "C", "W", "heapcounts"], oracles=[],
                 contract=False, title="without adoptions identical to std", std=True),
-    "C08": dict(streams=["corpus", "contract", "raw", "exh2"], fields=["heap"], oracles=["O8"], contract=False,
+    "C08": dict(streams=["corpus", "contract", "raw", "exh2", "api"], fields=["heap"], oracles=["O8"], contract=False,
                 title="bookkeeping exact, symmetric, no dead names"),
     "C09": dict(streams=["contract_full", "exh2"], fields=["D", "heapcounts"], oracles=[], contract=True,
                 title="destroyed sets independent of layout", layout=True),
@@ -232,7 +232,9 @@ def load_known():
 
 def classify_known(pid, run, step_idx, fail, diffs_all):
     """Is this oracle failure an instance of a listed known finding?  Returns the finding id or None."""
-    st = run.impl["steps"][step_idx]
+    if not run.impl["steps"]:
+        return None
+    st = run.impl["steps"][min(step_idx, len(run.impl["steps"]) - 1)]
     orc = st["orc"] or {}
     model_agrees = not diffs_all
     for k in load_known():
@@ -335,6 +337,11 @@ def judge(pid, cfg, runs):
                         o = [(i, "OE:" + ob["E"])]
                         r.oracle_fails = o
                     break
+        if not o and r.crash is not None and "E" in fields:
+            # the implementation process died on a history the model runs without error
+            i = len([st for st in r.impl["steps"] if st.get("obs") is not None])
+            o = [(max(0, min(i, len(r.impl["steps"]) - 1)) if r.impl["steps"] else 0, f"OE:process-died-rc={r.crash}-at-op-{i}")]
+            r.oracle_fails = o
         if o:
             alld = engine.compare(r, ["D", "F", "E", "heap", "roots"])
             r.diffs = d
